@@ -8,7 +8,7 @@ import molgen
 from vlib import g_str, g_list
 
 GEN = ['grammar', 'elements']
-COQ_DEPS = ['Ring/PegCorr.vo', 'Gen/RingGrammar.vo', 'Gen/Elements.vo']
+COQ_DEPS = ['Ring/PegCorr.vo', 'Ring/Peg_cert.vo', 'Gen/RingGrammar.vo', 'Gen/Elements.vo']
 
 
 def small_molecules():
